@@ -1328,3 +1328,131 @@ func c05Signature(t C05Case, impl, model Sexp) string {
 	}
 	return "impl=" + h(impl) + ",model=" + h(model)
 }
+
+// ---- lexer correspondence: Lexer.tokenize == lexer.Tokenize on texts ----
+
+type C05LexCase struct {
+	Text []byte `json:"text"`
+	How  string `json:"how"`
+}
+
+var c05ByteJunk = []string{`"`, "`", `\`, "'", "#", "/", "*", "//", "/*", "*/", ".", "-", "--", "_", "0", "9", "e", "E", "x", "p", "B", "b", "w", "(", "m", "s", "h", "KB", "Mi",
+	"\n", "\r", "\t", " ", "\f", "\v", "\x00", "\xc3", "\xff", "é", "µ", "\u00a0", "\ufeff", `\x4`, `é`, `\U0001F389`, `\101`, `\8`, `\'`, `\"`, "0x1", "1_0", "08", "1e", "1e+", "1.5.3", "5m3", "!", "=", "~", "|", "<", ">", "@"}
+
+func c05LexGen(r *rand.Rand) C05LexCase {
+	c := c05Gen(r)
+	text := []byte(c.Text)
+	how := "as-generated"
+	for n := r.Intn(3); n > 0 && len(text) > 0; n-- {
+		i := r.Intn(len(text) + 1)
+		j := pick(r, c05ByteJunk)
+		switch r.Intn(3) {
+		case 0:
+			text = append(append(append([]byte{}, text[:i]...), j...), text[i:]...)
+		case 1:
+			if i < len(text) {
+				text = append(append([]byte{}, text[:i]...), text[i+1:]...)
+			}
+		default:
+			if i < len(text) {
+				text = append(append(append([]byte{}, text[:i]...), j...), text[i+1:]...)
+			}
+		}
+		how = "byte-mutated"
+	}
+	return C05LexCase{Text: text, How: how}
+}
+
+func c05LexImpl(c C05LexCase) Sexp {
+	toks, err := lexer.Tokenize(string(c.Text), lexer.TokenizeOptions{})
+	if err != nil {
+		return L(A("err"))
+	}
+	ts := make([]Sexp, 0, len(toks))
+	for _, t := range toks {
+		s, ok := tokS(t)
+		if !ok {
+			return L(A("unknown-token-type"), A(t.Type.String()))
+		}
+		ts = append(ts, s)
+	}
+	return L(A("ok"), LS(ts))
+}
+
+func init() {
+	propsExtra["C05"] = append(propsExtra["C05"], func(c *Ctx) {
+		spec := &Spec[C05LexCase]{
+			What: "Lexer.tokenize text == lexer.Tokenize text",
+			Gen:  c05LexGen,
+			Req:  func(t C05LexCase) Sexp { return L(A("lex"), B(string(t.Text))) },
+			Impl: c05LexImpl,
+			Equal: func(t C05LexCase, impl, model Sexp) bool {
+				if model.Head() == "unsup" {
+					return true // outside the modelled sub-language (Unicode identifiers, radix literals, ...)
+				}
+				return impl.String() == model.String()
+			},
+			Shrink: func(t C05LexCase) []C05LexCase {
+				var out []C05LexCase
+				for n := 16; n >= 1; n /= 2 {
+					for i := 0; i+n <= len(t.Text); i += max(1, n/2) {
+						out = append(out, C05LexCase{Text: append(append([]byte{}, t.Text[:i]...), t.Text[i+n:]...), How: "shrunk"})
+					}
+				}
+				return out
+			},
+			Nontrivial:    func(t C05LexCase, impl Sexp) bool { return impl.Head() == "ok" },
+			PropertyFails: func(t C05LexCase, impl, model Sexp) bool { return false },
+			Signature:     func(t C05LexCase, impl, model Sexp) string { return "lexer:impl=" + impl.Head() + ",model=" + model.Head() },
+			Tags: func(t C05LexCase, impl Sexp) []string {
+				return []string{"c05lex:" + t.How + ":" + impl.Head()}
+			},
+			Key: func(t C05LexCase) string { return "lex:" + string(t.Text) },
+		}
+		RunSpec(c, spec, c.Scale(6000, 300000))
+	})
+	// the whole pipeline in Lean (Lexer.tokenize then Parser.parse) against logql.Parse on arbitrary text
+	propsExtra["C05"] = append(propsExtra["C05"], func(c *Ctx) {
+		spec := &Spec[C05LexCase]{
+			What: "Layout.parseText text == logql.Parse text",
+			Gen:  c05LexGen,
+			Req: func(t C05LexCase) Sexp {
+				renv := LS(nil)
+				if toks, err := lexer.Tokenize(string(t.Text), lexer.TokenizeOptions{}); err == nil {
+					renv = reEnvS(toks)
+				}
+				return L(A("parsetext"), renv, B(string(t.Text)))
+			},
+			Impl: func(t C05LexCase) Sexp {
+				tree, err := c05Parse(string(t.Text))
+				if err != nil {
+					return L(A("err"))
+				}
+				return L(A("ok"), tree)
+			},
+			Equal: func(t C05LexCase, impl, model Sexp) bool {
+				if model.Head() == "unsup" {
+					return true
+				}
+				return normNums(impl).String() == normNums(model).String()
+			},
+			Shrink: func(t C05LexCase) []C05LexCase {
+				var out []C05LexCase
+				for n := 16; n >= 1; n /= 2 {
+					for i := 0; i+n <= len(t.Text); i += max(1, n/2) {
+						out = append(out, C05LexCase{Text: append(append([]byte{}, t.Text[:i]...), t.Text[i+n:]...), How: "shrunk"})
+					}
+				}
+				return out
+			},
+			Nontrivial:    func(t C05LexCase, impl Sexp) bool { return impl.Head() == "ok" },
+			PropertyFails: func(t C05LexCase, impl, model Sexp) bool { return true },
+			Signature:     func(t C05LexCase, impl, model Sexp) string { return "text:impl=" + impl.Head() + ",model=" + model.Head() },
+			Tags: func(t C05LexCase, impl Sexp) []string {
+				return []string{"c05text:" + t.How + ":" + impl.Head()}
+			},
+			Key: func(t C05LexCase) string { return "text:" + string(t.Text) },
+		}
+		RunSpec(c, spec, c.Scale(4000, 200000))
+	})
+}
